@@ -2581,14 +2581,17 @@ Section Cover.
     destruct (under_cmp root p x Hx E) as [H|[H|H]]; [apply Hp; now left | apply Hp; now right | congruence].
   Qed.
 
-  Theorem step_rename_dir_in w k r p q w' ep : RSync w k r -> npath p -> npath q ->
+  (* the reader's only event: the IN_MOVED_TO of the directory, under its real path *)
+  Theorem step_rename_dir_in_ev w k r p q w' ep : RSync w k r -> npath p -> npath q ->
     c_recursive C = true -> c_fix_movein C = true ->
     N.land IN_MOVED_FROM (c_mask C) <> 0%N -> N.land IN_MOVED_TO (c_mask C) <> 0%N ->
     apply_op w (Rename p q) = Some w' ->
     flookup p (w_fs w) = Some ep -> f_dir ep = true -> ~ scope p -> under p root = false -> scope q ->
     flookup q (w_fs w) = None ->
     let k1 := kernel_op k (w_fs w) (Rename p q) in
-    exists r' k' evs, read_batch C (w_fs w') (r, drainq k1, []) (k_queue k1) = Done (r', k', evs) /\ RSync w' k' r'.
+    exists r' k' wd, read_batch C (w_fs w') (r, drainq k1, []) (k_queue k1) =
+        Done (r', k', [{| r_wd := wd; r_mask := N.lor IN_MOVED_TO IN_ISDIR; r_cookie := k_next_cookie k;
+                          r_name := basename q; r_path := q |}]) /\ RSync w' k' r'.
   Proof.
     intros S Np Nq Hrec Hfix Hmf Hmt Ha Elp Dep Sp Hpr Sq Elq k1. destruct S as [W Hr I Cv Hq Hpd].
     assert (W' : wf_fs w') by exact (wf_apply_op w (Rename p q) w' W (conj Np Nq) Ha).
@@ -2645,7 +2648,9 @@ Section Cover.
     assert (Hpd2 : pend r2 = None).
     { assert (H := add_dirs_pend t' (q :: walk_dirs t' q) r k0). rewrite Hd in H. cbn [fst] in H. congruence. }
     rewrite Hd.
-    eexists _, _, _. split; [reflexivity|].
+    exists r2, k2, (kw_wd kwq). split.
+    { cbn [app]. unfold raw_to, mv_to, kev. cbn [k_wd k_mask k_cookie k_name]. do 4 f_equal.
+      unfold src_path_of in SPq. destruct (basename q); [discriminate Vbq | exact SPq]. }
     assert (Hroot : ren p q er = er).
     { apply Hren; [exact Her|]. rewrite Eer. unfold scope. rewrite Hrec. now left. }
     constructor; cbn [w_fs]; try assumption.
@@ -2662,6 +2667,20 @@ Section Cover.
           assert (Hr : ren p q e = e) by (unfold ren; apply beqb_neq in E; now rewrite E, Eu). rewrite Hr.
           destruct (Cv e He De' Se') as (kw & C1 & C2 & C3). exists kw. apply X2; [rewrite <- Hr; now apply Hin'|].
           split; [|split]; assumption.
+  Qed.
+
+  Theorem step_rename_dir_in w k r p q w' ep : RSync w k r -> npath p -> npath q ->
+    c_recursive C = true -> c_fix_movein C = true ->
+    N.land IN_MOVED_FROM (c_mask C) <> 0%N -> N.land IN_MOVED_TO (c_mask C) <> 0%N ->
+    apply_op w (Rename p q) = Some w' ->
+    flookup p (w_fs w) = Some ep -> f_dir ep = true -> ~ scope p -> under p root = false -> scope q ->
+    flookup q (w_fs w) = None ->
+    let k1 := kernel_op k (w_fs w) (Rename p q) in
+    exists r' k' evs, read_batch C (w_fs w') (r, drainq k1, []) (k_queue k1) = Done (r', k', evs) /\ RSync w' k' r'.
+  Proof.
+    intros S Np Nq Hrec Hfix Hmf Hmt Ha Elp Dep Sp Hpr Sq Elq k1.
+    destruct (step_rename_dir_in_ev w k r p q w' ep S Np Nq Hrec Hfix Hmf Hmt Ha Elp Dep Sp Hpr Sq Elq) as (r' & k' & wd & H1 & H2).
+    eauto.
   Qed.
 
 
